@@ -34,6 +34,11 @@ import Operon.Model.Wiring
   swapdiag                                  both executors' `diagram` attribute is re-assigned to the second diagram;
                                             from here on every line that spoke about the first diagram speaks about
                                             that one, and `caps2 / share / mod2` about the former first one
+  … p:rawv:KIND / ext M P rawv KIND         a raw payload of an unusual but legal Python type (None, False, True, "", [], a
+                                            dict, NaN, objects whose == / bool() raise, a non-empty list, a duck-typed
+                                            look-alike of TypedValue, a tuple): an opaque payload code >= 1000, passed on
+                                            unchanged
+  … p:typedsub:dt:il:k                      an instance of a SUBCLASS of TypedValue: labelled like `typed`
   flow sdt sil ddt dil                      can_flow_to / require_flow_to
   cout|cin raw k pdt pil | typed dt il k pdt pil     _coerce_output / _coerce_input
 -/
@@ -68,10 +73,19 @@ def sections (ts : List String) : List String × List String × List String :=
   let cs := afterO.dropWhile (· ≠ "C") |>.drop 1
   (ins, outs, cs)
 
+/-- payload codes of the unusual-but-legal raw payloads (`rawv KIND`); 0 = not a kind -/
+def kindCode (k : String) : Nat :=
+  match ["none", "false", "true", "emptystr", "emptylist", "dict", "nan", "eqraises", "boolraises", "list", "tvlike",
+         "tuple"].idxOf? k with
+  | some i => 1000 + i
+  | none => 0
+
 def parseScriptEntry (t : String) : Option (Nat × Val) :=
   match t.splitOn ":" with
   | [p, "raw", k] => some (natD p, .raw (natD k))
+  | [p, "rawv", k] => if kindCode k = 0 then none else some (natD p, .raw (kindCode k))
   | [p, "typed", dt, il, k] => some (natD p, .typed ⟨natD dt, natD il, natD k⟩)
+  | [p, "typedsub", dt, il, k] => some (natD p, .typed ⟨natD dt, natD il, natD k⟩)
   | _ => none
 
 /-- the scripted handler: payloads depend on the inputs so that mis-routed values are visible -/
@@ -82,7 +96,7 @@ def mkHandler : Script → Handler
     let s := (ins.map (·.2.payload)).foldl (· + ·) 0
     .ret (outs.map fun (p, v) =>
       (p, match v with
-          | .raw k => .raw ((3 * s + k) % 1000)
+          | .raw k => if k ≥ 1000 then .raw k else .raw ((3 * s + k) % 1000)   -- codes >= 1000: constant objects
           | .typed t => .typed ⟨t.dt, t.il, (3 * s + t.payload) % 1000⟩))
 
 def handlerTable (hs : List (Nat × Script)) : Nat → Option Handler :=
@@ -121,6 +135,7 @@ def showCalls (cs : List Call) : String :=
 
 def parseVal : List String → Option (Val × List String)
   | "raw" :: k :: rest => some (.raw (natD k), rest)
+  | "rawv" :: k :: rest => if kindCode k = 0 then none else some (.raw (kindCode k), rest)
   | "typed" :: dt :: il :: k :: rest => some (.typed ⟨natD dt, natD il, natD k⟩, rest)
   | _ => none
 
